@@ -11,11 +11,12 @@ import (
 	"verifharness/internal/sim"
 )
 
-// Emit writes one line of the history (same writer and log as the built-in lines).
-func (h *H) Emit(format string, a ...interface{}) { h.emit(format, a...) }
+// AEmit writes one line of the history (same writer and log as the built-in lines).
+// (Named apart from the accessors other checks add to this package.)
+func (h *H) AEmit(format string, a ...interface{}) { h.emit(format, a...) }
 
-// ShID returns the model's number of a 32-byte script hash (assigning the next free one).
-func (h *H) ShID(b []byte) int { return h.sh(b) }
+// AShID returns the model's number of a 32-byte script hash (assigning the next free one).
+func (h *H) AShID(b []byte) int { return h.sh(b) }
 
 // ScriptStdOf / ScriptStakingOf / ScriptBindingOf build output scripts for a bare script hash.
 func ScriptStdOf(sh []byte) []byte { return witnessScript(sh) }
